@@ -677,10 +677,10 @@ impl<T: RealNumber> BaseMatrix<T> for DenseMatrix<T> {
     }
 
     fn dot(&self, other: &Self) -> T {
-        if (self.nrows != 1 && other.nrows != 1) && (self.ncols != 1 && other.ncols != 1) {
+        if self.nrows != 1 && self.ncols != 1 {
             panic!("A and B should both be either a row or a column vector.");
         }
-        if self.nrows * self.ncols != other.nrows * other.ncols {
+        if self.nrows != other.nrows || self.ncols != other.ncols {
             panic!("A and B should have the same size");
         }
 
@@ -975,10 +975,7 @@ impl<T: RealNumber> BaseMatrix<T> for DenseMatrix<T> {
     }
 
     fn softmax_mut(&mut self) {
-        let max = self
-            .values
-            .iter()
-            .fold(T::neg_infinity(), |a, b| a.max(*b));
+        let max = self.values.iter().fold(T::neg_infinity(), |a, b| a.max(*b));
         let mut z = T::zero();
         for r in 0..self.nrows {
             for c in 0..self.ncols {
